@@ -27,7 +27,7 @@ def run_tests():
 
 
 out = {}
-for k in (1, 2):
+for k in (1, 2, 3):
     ch, demo = os.path.join(wt, 'out', 'change%d.diff' % k), os.path.join(wt, 'out', 'demo%d.diff' % k)
     if not (os.path.exists(ch) and os.path.exists(demo)):
         continue
